@@ -8,6 +8,7 @@ import N2V.Monitors
 import N2V.Model.Db
 import N2V.Model.Load
 import N2V.Model.World
+import N2V.Model.Settled
 import N2V.Model.Task
 open N2V
 
@@ -560,7 +561,7 @@ def stepOp (acc : Acc) (op : World.Op) : Acc :=
       -- C03.repeated_build_does_nothing): the implementation's tree with the log's records
       let wImpl : World := { fs := o.fs.map (fun t => (t.1, (⟨t.2.1, t.2.2⟩ : FileInfo))), clock := w'.clock, log := w'.log }
       let settledApplies := o.result.startsWith "ok" && !a.adopt && World.allDeclaredPresent wImpl a
-      let settledOk := !settledApplies || World.settled wImpl a
+      let settledOk := !settledApplies || World.settledC wImpl a
       -- C09 (a vanished discovered dependency never FAILS the build) / C02: the dirtiness check
       -- reports an error ("input .. missing", "used generated file ..") only where the model of the
       -- manifest rule does: a declared dirtying source that is missing, or an unordered generated file
